@@ -64,7 +64,7 @@ def born_rows(case):
             else:
                 p = (U @ psi).abs() ** 2
             cdf = torch.cumsum(p / p.sum(), 0)
-            k = int(torch.searchsorted(cdf, torch.tensor(r["u"], dtype=R.F64)).clamp(max=2 ** n - 1))
+            k = int(torch.searchsorted(cdf, torch.tensor(r["u"], dtype=R.F64), right=True).clamp(max=2 ** n - 1))  # first outcome with cdf > u: never a zero-probability one
             out.append((r["basis"], k))
     return out
 
